@@ -7,7 +7,6 @@
 use crate::containers::{BoxFut, Cont, LockOut};
 use crate::sched::{AgentCtx, Cmd, Outcome, PollResult, Report};
 use crate::types::*;
-use futures::stream::Stream;
 use std::sync::Arc;
 use std::task::{Context, Poll};
 
